@@ -570,7 +570,9 @@ def jl_stats(ctx, worlds):
     for key, (op, res, p) in sorted(cands.items()):
         path = core.write_replay(ctx, 'json.lens candidate finding: ' + key, ['world candidate', op],
                                  'the real gjson/sjson (as called by match.Any) on this line:\n' + res[:1500], None, dict(kind='candidate', suite='json.lens'))
-        ctx.notes.append('json.lens CANDIDATE FINDING (not failing the check): %s; smallest generated line: path %r, replay %s' % (key, p, path))
+        # (the classes met so far are recorded as known findings D17 - duplicate member names -, D18 - a name starting
+        # with ':' - and D19 - multi-value `#` paths; KNOWN_FINDINGS.txt, witnesses replayed by the C15 / C16 checks)
+        ctx.notes.append('json.lens behaviour contradicting C15/C16 outside the model (see known findings D17-D19; not failing the check): %s; smallest generated line: path %r, replay %s' % (key, p, path))
     return cands
 
 
